@@ -36,8 +36,12 @@ type CaseC18 struct {
 	// four numbers per step from this cyclic list (receive first or release first; in which order to
 	// poll the three channels; which parked goroutine to release; whether the consumer is already
 	// waiting in its select when that goroutine moves on).
-	Sched   []int `json:"sched"`
-	FaultAt int   `json:"fault_at"` // read fault offset, -1 none
+	Sched []int `json:"sched"`
+	// ConsStall: fake time the consumer spends on the i-th received event before it comes back
+	// (cyclic, nanoseconds; odd values so that it never wakes at the same instant as a round timer
+	// of the code under test). This is what lets timers inside the producer fire.
+	ConsStall []int64 `json:"consumer_work_ns"`
+	FaultAt   int     `json:"fault_at"` // read fault offset, -1 none
 }
 
 // stallReader is the simulated transport between file and producer.
@@ -102,6 +106,7 @@ func genC18(thorough bool) func(t *rapid.T) Case {
 		stall := rapid.SampledFrom([]int64{0, 0, 1, 2, 5, 1000})
 		c.ReaderStall = rapid.SliceOfN(stall, 0, 4).Draw(t, "reader_stalls")
 		c.Sched = rapid.SliceOfN(rapid.IntRange(0, 5), 0, 16).Draw(t, "schedule")
+		c.ConsStall = rapid.SliceOfN(rapid.SampledFrom([]int64{0, 0, 0, 1001, 1000007, 30000007, 1000000007}), 0, 4).Draw(t, "consumer_work")
 		if c.Entry == "stream" && rapid.IntRange(0, 3).Draw(t, "read_fault") == 3 {
 			c.FaultAt = rapid.IntRange(0, len(c.Text)).Draw(t, "fault_at")
 		}
@@ -208,15 +213,27 @@ func (c *CaseC18) Eval(ob *Obs) []Finding {
 				parked = append(parked[:i], parked[i+1:]...)
 				return g
 			}
-			step := 0
+			var step atomic.Int64
 			next := func() int {
-				v := 0
-				if len(c.Sched) > 0 {
-					v = c.Sched[step%len(c.Sched)]
+				i := int(step.Add(1) - 1)
+				if len(c.Sched) == 0 {
+					return 0
 				}
-				step++
-				return v
+				return c.Sched[i%len(c.Sched)]
 			}
+			// R8: which of several ready cases a select of the code under test takes is the schedule's choice too
+			verifsim.SetSelectHook(func(site string, n int) []int {
+				ord := make([]int, n)
+				for i := range ord {
+					ord[i] = i
+				}
+				for i := n - 1; i > 0; i-- {
+					j := next() % (i + 1)
+					ord[i], ord[j] = ord[j], ord[i]
+				}
+				return ord
+			})
+			defer verifsim.SetSelectHook(nil)
 
 			p := parser.NewParser(parser.NewDefaultConfig())
 			var exited atomic.Bool
@@ -245,6 +262,11 @@ func (c *CaseC18) Eval(ob *Obs) []Finding {
 			record := func(kind, val string) {
 				history = append(history, recvEvent{kind, val})
 				decisions = append(decisions, "recv:"+kind)
+				if n := len(c.ConsStall); n > 0 {
+					if d := c.ConsStall[(len(history)-1)%n]; d > 0 && kind != "done" {
+						time.Sleep(time.Duration(d)) // the consumer works on the event
+					}
+				}
 			}
 			// tryRecv: one non-blocking receive attempt per channel, in the order the plan gives.
 			orders := [][3]int{{0, 1, 2}, {0, 2, 1}, {1, 0, 2}, {1, 2, 0}, {2, 0, 1}, {2, 1, 0}}
@@ -360,6 +382,7 @@ func (c *CaseC18) Eval(ob *Obs) []Finding {
 		})
 	}()
 	verifsim.SetYieldHook(nil)
+	verifsim.SetSelectHook(nil)
 	if cur := verifsim.Current(); cur != nil {
 		cur.UninstallLight()
 	}
